@@ -68,7 +68,7 @@ def errStr (e : SynError) : String :=
 
 def cmdParse (input : List Char) (hashed : Bool) : String :=
   match Grammar.parse input with
-  | .panic w => s!"PANIC {w}"
+  | .panic w => s!"PANIC {repr w}"
   | .outOfFuel => "OUT-OF-FUEL"
   | .ok r =>
     let parts := dumpTree r.tree #[]
